@@ -1763,6 +1763,9 @@ class Frame(ContainerOperand):
                 array = array.reshape((1, len(array)))
             # NOTE: genfromtxt will return a one column input file as a 2D array with the vertical data as a horizontal row. There does not appear to be a way to distinguish this from a single row file
 
+        # columns are taken as views of this private array: freeze it, and the buffer it might be a view of
+        immutable_new(array)
+
         if array.size > 0: # an empty, or column only table
             data, index_arrays, _ = cls._structured_array_to_d_ia_cl(
                     array=array,
